@@ -64,6 +64,11 @@ def _apply_and_get_body(s: dict, via: str, caps_profile=None, case_propset=0, ca
                     f"swing_mode={swing_names.get(s['swing'], s['swing'])}", f"eco={s['eco']}", f"turbo={s['turbo']}", f"sleep={s['sleep']}",
                     f"fahrenheit={s['fahrenheit']}", f"freeze_protection={s['freeze']}", f"follow_me={s['follow_me']}", f"purifier={s['purifier']}",
                     f"target_humidity={s['humidity']}", f"aux_mode={s['aux']}", f"beep={s['beep']}"]
+        if isinstance(as_ints, str) and as_ints.startswith("float"):
+            # the numbers of the enumerated settings written with a decimal point (60.0): an undocumented spelling - the command line may
+            # refuse it, but must not apply anything else
+            floated = {"float": ("operational_mode", "fan_speed", "swing_mode", "aux_mode"), "float:fan": ("fan_speed",), "float:fsa": ("fan_speed", "swing_mode", "aux_mode")}[as_ints]
+            settings = [x if x.split("=")[0] not in floated else x.split("=")[0] + "=" + str(float({"operational_mode": s["mode"], "fan_speed": s["fan"], "swing_mode": s["swing"], "aux_mode": s["aux"]}[x.split("=")[0]])) for x in settings]
         initial = dict(c20.DEFAULT_INITIAL)
         if case_propset:
             # a display change on the same command line, at the end or in the middle (it is carried by a toggle command of its
@@ -71,6 +76,8 @@ def _apply_and_get_body(s: dict, via: str, caps_profile=None, case_propset=0, ca
             settings.insert(len(settings) if case_propset == 1 else 7, f"display_on={not initial['display_on']}")
         status, exc, _net, holder = c20.run_cli({"kind": "valid", "settings": settings, "initial": initial, "capabilities": bool(caps_profile), "version": 2})
         m = holder["m"]
+        if status != 0 and isinstance(as_ints, str) and as_ints.startswith("float"):
+            return b"refused", m.state, []
         if status != 0:
             return None, m.state, [(None, f"msmart-ng control {' '.join(settings)} exited {status} ({exc!r})")]
         return (m.control_bodies[-1] if m.control_bodies else None), m.state, m.rejected
@@ -181,6 +188,8 @@ def check_case(case: dict):
         return ("extra-command", str(rejected[-1][1]) + f"; requested {s}")
     if rejected:
         return ("rejected", f"model device rejected the command: {rejected[0][1]}")
+    if body == b"refused":
+        return None          # (an undocumented spelling was refused outright: allowed)
     if body is None:
         return ("no-command", "no 0x40 command reached the device")
     d = decode_control_body(body)
@@ -301,6 +310,8 @@ def run(ctx) -> None:
                 case = dict(case, busy=["old", "old+new", "new+old"][(i // 20) % 3])
             elif "via" not in case and i % 20 == 5 and case["state"]["fan"] >= 1 and case["state"]["swing"] in gens.SWING_MEMBERS:
                 case = dict(case, via="cli", propset=(i // 20) % 3)
+                if (i // 20) % 4:
+                    case["as_ints"] = ["float", "float:fan", "float:fsa"][(i // 20) % 4 - 1]
             if case.get("via", "device") == "device" and i % 7 == 3 and case["state"]["swing"] in gens.SWING_MEMBERS and 1 <= case["state"]["mode"] <= 6:
                 case = dict(case, as_ints=True)       # (on top of whatever history the case has)
             ctx.check(case, lambda c: _run_one(ctx, c))
